@@ -88,7 +88,19 @@ func (c *Ctx) getSessionContract() {
 	for _, s := range scen {
 		for name, m := range s.must {
 			key := fmt.Sprintf("getSession:%s:must(%s)", s.name, name)
-			if p := mustPass(g, entry, m, s.as); p != nil {
+			// a return that can report success: the lookup may sit in the accept function itself (getSession inlined),
+			// whose refusals return a definite error
+			okRet := func(n paths.Node) bool {
+				ret, isRet := n.Instr.(*ssa.Return)
+				if !isRet || n.F != g.Root {
+					return false
+				}
+				if len(ret.Results) == 0 {
+					return true
+				}
+				return !definitelyNonNilError(ir.ReturnOperand(ret, len(ret.Results)-1))
+			}
+			if p := reach(g, entry, m, okRet, s.as); p != nil {
 				c.R.Bad(ruleP8, key, pos, "in scenario "+s.name+" a successful return is reachable without "+name, c.witness(g, p)...)
 			} else {
 				c.R.Ok(ruleP8, key, pos, name+" is on every successful path of the scenario")
@@ -110,7 +122,24 @@ func (c *Ctx) getSessionContract() {
 func (c *Ctx) restoreSubscriptions() {
 	r := c.Roles()
 	fn := r.Start
-	l := loopOver(fn, func(call *ssa.Call) bool { return ir.IsMethod(call.Common(), pkgSessions, "Session", "Topics") })
+	isTopics := func(call *ssa.Call) bool { return ir.IsMethod(call.Common(), pkgSessions, "Session", "Topics") }
+	l := loopOver(fn, isTopics)
+	// the restore loop may live in a method of the service that start calls (restoreSubscriptions)
+	var hostCall ssa.CallInstruction
+	if l == nil {
+		for _, call := range ir.Calls(fn) {
+			if _, isGo := call.(*ssa.Go); isGo {
+				continue
+			}
+			h := call.Common().StaticCallee()
+			if h == nil || h.Blocks == nil || recvNamed(h) != "service" || h == fn {
+				continue
+			}
+			if l2 := loopOver(h, isTopics); l2 != nil {
+				l, hostCall = l2, call
+			}
+		}
+	}
 	pos := c.P.Pos(fn.Pos())
 	if l == nil {
 		c.R.Bad(ruleP4, "start:restores-session-subscriptions", pos, "start has no loop over Session.Topics(): the subscriptions of a resumed session are not active again")
@@ -161,9 +190,13 @@ func (c *Ctx) restoreSubscriptions() {
 	c.R.Check(len(bad) == 0, ruleP4, "start:restores-session-subscriptions", pos, "for every (filter, qos) of Session.Topics(): Subscribe(filter, qos, &svc.onpub)", joinStr(bad, "; "))
 	// before the goroutines start (the first request is answered by the processor)
 	okDom := true
+	anchor := l.Header
+	if hostCall != nil {
+		anchor = hostCall.Block()
+	}
 	for _, call := range ir.Calls(fn) {
 		if g, ok := call.(*ssa.Go); ok {
-			if !l.Header.Dominates(g.Block()) {
+			if !anchor.Dominates(g.Block()) {
 				// the loop is on the server path only: accept if the go is reachable from the loop exit and the only way around the loop is the client branch
 				okDom = false
 			}
@@ -173,6 +206,9 @@ func (c *Ctx) restoreSubscriptions() {
 		// check with the client=false assumption: every path to a go statement passes the Topics() call
 		g := paths.New(c.P, fn, 0)
 		topics := nodeM(mMethod(pkgSessions, "Session", "Topics"))
+		if hostCall != nil {
+			topics = func(n paths.Node) bool { return n.Instr == ssa.Instruction(hostCall) }
+		}
 		isGo := func(n paths.Node) bool { _, ok := n.Instr.(*ssa.Go); return ok }
 		p := reach(g, []paths.Node{g.Entry()}, topics, isGo, Assume{"field:service.service.client": false, "err:*": false})
 		if p != nil {
@@ -414,4 +450,21 @@ func (c *Ctx) sessionKeyedByFinalID(fn *ssa.Function) {
 	}
 	// the lookup result is what the service uses, and Update/Init are applied to the service's session
 	// (covered by the scenario contracts above through nonnil(svc.sess))
+}
+
+// definitelyNonNilError: the returned error is a sentinel loaded from a package-level variable, a value converted to
+// the error interface, or the result of fmt.Errorf / errors.New.
+func definitelyNonNilError(v ssa.Value) bool {
+	switch x := v.(type) {
+	case *ssa.MakeInterface:
+		return true
+	case *ssa.UnOp:
+		_, isG := x.X.(*ssa.Global)
+		return isG
+	case *ssa.Call:
+		if f := x.Common().StaticCallee(); f != nil && f.Pkg != nil && (f.Pkg.Pkg.Path() == "fmt" || f.Pkg.Pkg.Path() == "errors") {
+			return true
+		}
+	}
+	return false
 }
